@@ -444,7 +444,23 @@ var checkC15 = register("C15/ops", func(c opsCase) string {
 	recipe.Ops = nil
 	recipe.PreQuery = false // the twin is never queried before its Decode
 	recipe.PreAssign = nil  // ... nor assigned before it
-	viewsOnly := len(c.PreAssign) > 0 && c.Ver == 2 && !c.NilRecv
+	// v2, fields assigned before the Decode: if every assigned field belongs to a group the
+	// vector writes, the Decode overwrites them all and the object must equal a plain decode;
+	// if a field of a group the vector does not carry was assigned, only self-consistency is
+	// required (see below)
+	viewsOnly := false
+	if len(c.PreAssign) > 0 && c.Ver == 2 && !c.NilRecv {
+		if ref, ok := spec.AcceptV2(c.Input, spec.Level(c.Level)); ok {
+			hasT, hasE := spec.V2Shape(ref)
+			for _, as := range c.PreAssign {
+				if m := spec.ByName(spec.V2Metrics, as.Field); m != nil && ((m.Level == spec.Temporal && !hasT) || (m.Level == spec.Environmental && !hasE)) {
+					viewsOnly = true
+				}
+			}
+		} else {
+			viewsOnly = true
+		}
+	}
 	strip := func(s snapshot) snapshot {
 		if viewsOnly {
 			s.Fields = nil
@@ -487,7 +503,16 @@ var checkC15 = register("C15/ops", func(c opsCase) string {
 			immediate = nil
 		}
 		st := strip(tw.snap())
-		if d := sa.diff(st); d != "" {
+		if viewsOnly {
+			// v2 object with fields assigned before its Decode: whether a group the vector
+			// does not carry counts as present afterwards is the library's choice (today the
+			// decoder's bookkeeping decides, so the assignment is ignored; a library that let
+			// the fields decide would be as good). What must hold either way: the object is
+			// the object its own encoding describes.
+			if m := roundTripConsistent(a, c); m != "" {
+				return fmt.Sprintf("after step %d (%+v) %s", step, o, m)
+			}
+		} else if d := sa.diff(st); d != "" {
 			return fmt.Sprintf("after step %d (%+v) the queried object differs from a freshly built twin: %s", step, o, d)
 		}
 		if d := st.diff(reference); d != "" {
@@ -774,7 +799,7 @@ func drawOps(rt *rapid.T, ver int, level spec.Level) []op {
 func TestC15(t *testing.T) {
 	c := begin(t, "C15")
 	defer c.end()
-	c.rec.F.Rule = "rapid operation sequences (1-40 steps) over an object obtained from a v2 or v3 decoder of any level on a valid, mutated or arbitrary input (successful object, or the receiver left behind by a failed decode): observer queries (Score, Severity, GetError, Encode, String on every level view reached through the accessors), full observations, report construction and export, exported-field assignments (any code or the unknown/invalid constant), further Decodes on an object that was decoded successfully (each must fail, or yield exactly what a fresh decoder yields; after a refused one nothing is asserted until one succeeds), and noise (decoding, querying and reporting other vectors); one case in four queries the constructor result completely *before* its Decode. Subjects are also built by pure field assignment on a constructor result (no Decode), and v2 subjects may have optional-group fields assigned before their Decode (then only query results are compared). A deterministic sweep runs query / assign / query for every exported field x every value on 6 representative vectors, for decoded, pre-queried and field-built subjects. After every step the queried object must equal a freshly decoded, never-queried twin rebuilt from the recipe (exported fields by reflection, every query result at every level, v3 report structs in en and ja), the twin must equal the twin built before the history, and every query repeated twice must agree. Parsers: every code of every metric parsed 200 times. Non-trivial = a sequence containing a query, a later field assignment and a later query, or any query on a failed-decode receiver; distinct by hash of the case."
+	c.rec.F.Rule = "rapid operation sequences (1-40 steps) over an object obtained from a v2 or v3 decoder of any level on a valid, mutated or arbitrary input (successful object, or the receiver left behind by a failed decode): observer queries (Score, Severity, GetError, Encode, String on every level view reached through the accessors), full observations, report construction and export, exported-field assignments (any code or the unknown/invalid constant), further Decodes on an object that was decoded successfully (each must fail, or yield exactly what a fresh decoder yields; after a refused one nothing is asserted until one succeeds), and noise (decoding, querying and reporting other vectors); one case in four queries the constructor result completely *before* its Decode. Subjects are also built by pure field assignment on a constructor result (no Decode), and v2 subjects may have optional-group fields assigned before their Decode (then the object must answer like a fresh decode of its own encoding). A deterministic sweep runs query / assign / query for every exported field x every value on 6 representative vectors, for decoded, pre-queried and field-built subjects. After every step the queried object must equal a freshly decoded, never-queried twin rebuilt from the recipe (exported fields by reflection, every query result at every level, v3 report structs in en and ja), the twin must equal the twin built before the history, and every query repeated twice must agree. Parsers: every code of every metric parsed 200 times. Non-trivial = a sequence containing a query, a later field assignment and a later query, or any query on a failed-decode receiver; distinct by hash of the case."
 	c.rec.F.Assumptions = []string{"only observable state is compared (exported fields and query results), as the property words it", "a decoder object is used for one Decode call; re-decoding into a used object is not generated"}
 	nviol := 0
 	if shard == 0 {
